@@ -225,6 +225,47 @@ fn combination(g: &mut Xo, pop: &Pop, cases: usize, seed: u64, rep: &mut Report)
     }
 }
 
+fn large_population(g: &mut Xo, rep: &mut Report) {
+    let n = match g.below(6) {
+        0 => 10 + g.usize_below(30),
+        1 => 40 + g.usize_below(120),
+        2 => *g.pick(&[63usize, 64, 65, 81, 100, 121, 127, 128, 129, 255, 256, 257]),
+        3 => 160 + g.usize_below(900),
+        4 => *g.pick(&[1000usize, 1023, 1024, 1025, 2048, 4099]),
+        _ => 10 + g.usize_below(90),
+    };
+    let cases = *g.pick(&[0usize, 1, 2, 3, 5, 8, 13, 21, 34]);
+    let pop = gen_population(g, n, cases);
+    let decoy = pop.clone();
+    let root = (n as f64).sqrt() as usize;
+    let mut ks: Vec<usize> = vec![1, 2, 3, 4, 7, 8, 9, 10, 11, 15, 16, 17, 31, 32, 33, 63, 64, 65, root.max(1), root + 1, (root.max(2)) - 1, n / 2, n - 1, n, n + 1, n + 7];
+    for _ in 0..6 {
+        ks.push(1 + g.usize_below(n + 2));
+    }
+    ks.sort_unstable();
+    ks.dedup();
+    let mut kinds = vec![LeafKind::Best, LeafKind::Worst, LeafKind::Random];
+    kinds.extend(ks.into_iter().filter(|k| *k >= 1).map(LeafKind::Tournament));
+    for c in [0, 1, cases / 2, cases.saturating_sub(1), cases, cases + 1, cases + 5] {
+        kinds.push(LeafKind::Lexicase(c));
+    }
+    kinds.dedup();
+    for kind in &kinds {
+        for _ in 0..3 {
+            let seed = g.next();
+            direct_leaf(kind, &pop, &decoy, seed, rep);
+        }
+    }
+    rep.count("large-populations");
+    for _ in 0..8 {
+        let sd = g.next();
+        combination(g, &pop, cases, sd, rep);
+    }
+    if decoy != pop {
+        rep.violation("C06/population-mutated", || json!({"population_size": pop.len()}));
+    }
+}
+
 pub fn run(args: &Args) -> i32 {
     let rounds = args.tier.pick(200_000usize, 3_000_000usize);
     let rep = run_shards(64, args.threads, 16 << 20, |s| {
@@ -261,6 +302,11 @@ pub fn run(args: &Args) -> i32 {
             if decoy != pop {
                 rep.violation("C06/population-mutated", || json!({"population": pop_json(&pop)}));
             }
+            // Large populations: size-dependent code paths (sampling strategies that switch with
+            // k or n, fixed-size scratch buffers, index arithmetic) only show beyond toy sizes.
+            if r % 40 == 0 {
+                large_population(&mut g, &mut rep);
+            }
         }
         rep
     });
@@ -268,7 +314,7 @@ pub fn run(args: &Args) -> i32 {
     rep.finish(
         args,
         "exploration",
-        "populations of size 0..9 (empty, singleton, all-equal, duplicate-laden, random; some individuals with fewer results) x Best, Worst, Random, Tournament(k=1..n+2), Lexicase(cases 0..m+2, both polarities) through five access paths (direct, &S, Select operator, &dyn, Box<dyn>) x random weighted combinations in 13 nestings with weights incl. 0; distinct_nontrivial counts distinct (selector, access path / members+weights, population size, outcome kind)",
+        "large populations (10..4099 members, tournament sizes around 8/16/32/64, sqrt(n), n/2, n-1, n, n+1, up to 34 cases) every 40th round; populations of size 0..9 (empty, singleton, all-equal, duplicate-laden, random; some individuals with fewer results) x Best, Worst, Random, Tournament(k=1..n+2), Lexicase(cases 0..m+2, both polarities) through five access paths (direct, &S, Select operator, &dyn, Box<dyn>) x random weighted combinations in 13 nestings with weights incl. 0; distinct_nontrivial counts distinct (selector, access path / members+weights, population size, outcome kind)",
         false,
         &[
             "identity is decided by address (ptr::eq) against the population's own elements",
